@@ -9,6 +9,7 @@
 
 void fb_tok(dig_t *a, const char *tok);
 void fb_out(const dig_t *a);
+void fb_info_print(void);
 
 void eb_tok(eb_t p, const char *tok) {
 	char buf[1024];
@@ -67,8 +68,10 @@ static void op_eb_param(int argc, char **argv) {
 	fprintf(OUT, " gx="); fb_out(g->x); fprintf(OUT, " gy="); fb_out(g->y);
 	fprintf(OUT, " r="); raw_print(n->dp, n->used, 0);
 	fprintf(OUT, " h="); raw_print(h->dp, h->used, 0);
-	fprintf(OUT, " kbltz=%d opta=%d optb=%d width=%d depth=%d\n", eb_curve_is_kbltz(), eb_curve_opt_a(), eb_curve_opt_b(),
+	fprintf(OUT, " kbltz=%d opta=%d optb=%d width=%d depth=%d", eb_curve_is_kbltz(), eb_curve_opt_a(), eb_curve_opt_b(),
 		(int)RLC_WIDTH, (int)RLC_DEPTH);
+	fb_info_print();
+	fputc('\n', OUT);
 }
 
 /* ebb <op> <alias> <P> <Q> */
